@@ -80,6 +80,13 @@ CLAIMED = {
         "DESIGN.md section 8, C01",
         "seeded trust relations and reactive adversary; invariant + before/after snapshot per unverifiable datagram",
     ),
+    "C02": (
+        "exploration",
+        "Node level: 2-3 real tun nodes with cipher lists from {default, aes128, aes256, chacha20, plain, plain+aes256, chacha20+aes128} (plain on none / one / both ends), a never-answering configured peer at node 0; 10-60 marked frames per run, the first of length (i mod 301) so that every length 0..=300 occurs once per 301 runs, others up to 9000 bytes; after each frame one sealed datagram on the wire (data or node info) is tampered with: one bit flipped in key id / counter / ciphertext / tag, truncation at any length, reflection to its sender, presentation on another connection of a 3-node mesh with matching source address, extension; unsealed payload from the address of a pending handshake. Oracles: every interface write is byte-identical to the frame read at the sending peer and stems from an unmodified copy of its datagram; a tampered datagram causes no write, no state change, no reply; two ticks later untouched frames are delivered exactly once on every connection; the complete wire capture of pairs that did not both enable plain contains no 16-byte window of payload or of any node id.",
+        "Trusted: simulator seams and the harness' attribution of wire datagrams (origin genuine / tampered, cause interface read). Bit positions and truncation lengths are sampled per region, not enumerated per datagram; encoded claims are not searched for separately (they travel in the same sealed node-info message as the node id).",
+        "DESIGN.md section 8, C02",
+        "seeded traffic with one tampering per frame; attribution of every interface write + wire scan",
+    ),
     "C03": (
         "exploration",
         "Pair level (L1): an established pair of real PeerCrypto objects for each cipher. A seed-indexed sweep enumerates all schedules of length 5 (thorough: 7) over {seal next, deliver datagram 1..5 (again), tick receiver}; random histories of 20-400 steps add sender ticks, delivery/loss of rotation messages and fast-forwards across key rotations. Oracle computed from the recorded history only (no access to the window variables): a genuine datagram with counter c under key generation g is rejected iff something with counter >= c was accepted under g before the receiver's previous tick, accepted otherwise while the receiver still holds g under that key id, and opens to the sealed bytes. Both directions of error are reported (replay hole, loss of in-window traffic).",
